@@ -24,6 +24,7 @@ const pagPkg = "collection/pagination"
 func runC19(c *Ctx) {
 	c.rule("E1", "a return reached only on the non-nil side of a test of a callee's error must not return a nil error (constructor failures are reported)", 10)
 	c.rule("E9", "in a function that can report an error, the error obtained from a callee goes somewhere: into a return, a call or a store — it is not merely looked at", 12)
+	c.rule("E11", "stream paginator: the page asked for its future is the page the paginator is on — no cursor-advancing call lies between reading the current page and using it", 1)
 	c.rule("E10", "the polling loop of the stream paginator's HasNext consults the paginator's context in every iteration and answers false once it is done", 1)
 	c.rule("E2", "HasNext/GetNext consult the paginator's context first: the DetermineContextError(a.ctx) test dominates every other call, and its failing side answers false / the error", 2)
 	c.rule("E3", "HasNext returns true only on the true side of the current iterator's HasNext, or as the result of its own recursion after fetchNextPage succeeded", 2)
@@ -45,6 +46,7 @@ func runC19(c *Ctx) {
 	c.c19Stop()
 	c.c19Stream()
 	c.c19StreamStops()
+	c.c19StreamCurrentPage()
 }
 
 // errDeadRule (E9): E1 looks at returns that lie wholly on the failing side of a test. A failure can also vanish without
@@ -849,4 +851,86 @@ func (c *Ctx) c19StreamStops() {
 	}
 	c.check(cyc == nil, "E10", key, c.ipos(gates[0]), "every iteration of the polling loop tests the paginator's context; done → false",
 		"an iteration of the polling loop can go round without testing the paginator's context: after Stop() the loop can keep polling")
+}
+
+// c19StreamCurrentPage (E11): "yields every item of every page … empty pages anywhere" and "keeps yielding items of future
+// pages". AbstractPaginator.HasNext() follows `next` links over empty pages and replaces the current page. The page whose
+// HasFuture() decides whether to wait, and which is handed to the fetch of the future page, must be read after that walk:
+// a page read before it is the page the iteration has left, and its future (or lack of one) says nothing about the stream.
+func (c *Ctx) c19StreamCurrentPage() {
+	f := c.fn(pagPkg, "(*AbstractStreamPaginator).HasNext")
+	if f == nil {
+		return
+	}
+	key := fname(f) + "/future-of-the-current-page"
+	var fetches, advances, uses []ssa.Instruction
+	var fromFetch func(v ssa.Value) *ssa.Call
+	fromFetch = func(v ssa.Value) *ssa.Call {
+		for _, l := range sources(v, deriveOpts{}) {
+			if ex, ok := l.(*ssa.Extract); ok {
+				if cl, ok := ex.Tuple.(*ssa.Call); ok && strings.HasSuffix(calleeFull(&cl.Call), ".FetchCurrentPage") {
+					return cl
+				}
+				// value, ok := page.(T)
+				if ta, ok := ex.Tuple.(*ssa.TypeAssert); ok && ex.Index == 0 {
+					if r := fromFetch(ta.X); r != nil {
+						return r
+					}
+				}
+			}
+		}
+		return nil
+	}
+	allInstrs(f, func(in ssa.Instruction) {
+		cl, ok := in.(*ssa.Call)
+		if !ok {
+			return
+		}
+		n := calleeFull(&cl.Call)
+		switch {
+		case strings.HasSuffix(n, ".FetchCurrentPage"):
+			fetches = append(fetches, cl)
+		case strings.HasSuffix(n, "AbstractPaginator).HasNext") || strings.HasSuffix(n, "AbstractPaginator).GetNext") || strings.HasSuffix(n, ".SetCurrentPage") || strings.HasSuffix(n, ".setCurrentPage") || strings.HasSuffix(n, ".fetchNextPage"):
+			advances = append(advances, cl)
+		}
+		if cl.Call.IsInvoke() && cl.Call.Method.Name() == "HasFuture" && fromFetch(cl.Call.Value) != nil {
+			uses = append(uses, cl)
+		}
+		if strings.HasSuffix(n, ".FetchFuturePage") {
+			for _, a := range cl.Call.Args {
+				if fromFetch(a) != nil {
+					uses = append(uses, cl)
+				}
+			}
+		}
+	})
+	if len(fetches) == 0 || len(uses) == 0 {
+		c.violate("E11", key, c.pos(f.Pos()), "the stream paginator no longer asks the page it is on (FetchCurrentPage) for its future")
+		return
+	}
+	bad := ""
+	isFetch := func(i ssa.Instruction) bool {
+		for _, x := range fetches {
+			if x == i {
+				return true
+			}
+		}
+		return false
+	}
+	for _, fe := range fetches {
+		for _, a := range advances {
+			a := a
+			if pathPruned(f, fe, isFetch, func(i ssa.Instruction) bool { return i == a }, nil) == nil {
+				continue
+			}
+			for _, u := range uses {
+				u := u
+				if pathPruned(f, a, isFetch, func(i ssa.Instruction) bool { return i == u }, nil) != nil {
+					bad = "the page read at " + c.ipos(fe) + " is used at " + c.ipos(u) + " after " + short(calleeNameOf(a)) + " (" + c.ipos(a) + ") may have moved the paginator to another page"
+				}
+			}
+		}
+	}
+	c.check(bad == "", "E11", key, c.ipos(fetches[0]), "the page asked for its future is read after every call that can move the paginator",
+		bad+": when a chain of `next` links ends in an empty page that carries the `future` link, the page asked is the one the iteration has left — it has no future, HasNext answers false and the items of the future pages are never yielded")
 }
